@@ -284,6 +284,8 @@ def fault_plan(seed, tier):
         ctrl = [f for f in faults if f["kill_before"] == 99][:4]
         reuse = [f for f in faults if f["prior"] > 0][:8]
         faults = [f for f in faults if f["kill_before"] != 99 and f["prior"] == 0][:24] + reuse + ctrl
+    hows = ["exit3", "exit0", "sigkill", "raise", "sysexit0"]
     for i, f in enumerate(faults):
         f["id"] = i
+        f["how"] = "exit3" if f["kill_before"] == 99 else hows[i % len(hows)]
     return faults
